@@ -37,6 +37,12 @@ def rule_unsafe_bounds(cx, tier):
     require(readers, "R-UNSAFE-BOUNDS: no get_unchecked reader found on StringSlice (as_str changed?)")
     r.analysed = {"constructing_functions": sorted(cx.F.fns[n].qual for n in builders), "unchecked_readers": [f.qual for f in readers]}
     r.floor("functions constructing a StringSlice", len(builders), 3)
+    # validating helpers: functions of the crate that return an Option and contain a range validator themselves
+    # (`fn checked_bounds(data, bounds) -> Option<Range<T>> { if data.get(bounds).is_some() {..} else { None } }`)
+    helpers = {g.name for g in cx.F.fns.values() if g.crate.uname == "koto_parser" and g.kind != "Closure" and not g.derived
+               and "Option<" in (g.local_tstr(0) or "")
+               and any(_is_validator(c) and not (c.pretty or "").endswith("is_char_boundary") for c in g.calls())
+               and g.name not in builders}
     unsafe_ctors = set()
     for name, sites in sorted(builders.items()):
         fn = cx.F.fns[name]
@@ -57,8 +63,9 @@ def rule_unsafe_bounds(cx, tier):
             continue
         cfg = cx.cfg(fn)
         du = cx.du(fn)
-        vals = [c for c in fn.calls() if _is_validator(c)]
+        vals = [c for c in fn.calls() if _is_validator(c) or c.resolved in helpers]
         verdict = None
+        point_only = None
         for sfn, bb, st in sites:
             # the block in the parent from which the construction runs
             if sfn is fn:
@@ -71,13 +78,35 @@ def rule_unsafe_bounds(cx, tier):
                 if site_bb is None:
                     verdict = ("undecided", "constructing closure's call site not found")
                     continue
-            dominated = any(cfg.dominates(v.bb, site_bb) and v.bb != site_bb for v in vals)
+            dom_vals = [v for v in vals if cfg.dominates(v.bb, site_bb) and v.bb != site_bb]
+            dominated = bool(dom_vals)
             preserved = _bounds_preserved(cx, sfn, st, fn)
+            if dominated and not preserved and all((v.pretty or "").endswith("is_char_boundary") for v in dom_vals):
+                # a *point* validator says where a character starts in the shared data, not that the point lies inside
+                # this slice: the stored range combines the point with one of the slice's own bounds, so an ordering
+                # comparison against that bound has to dominate the construction as well
+                from .narrow import Sym, guards, leaves_of
+                sym = Sym(cx, fn)
+                ordered = False
+                for (gb, dest, opn, le, re_, cty) in guards(cx, fn, sym):
+                    if opn in ("Lt", "Le", "Gt", "Ge") and (gb == site_bb or cfg.dominates(gb, site_bb)) and \
+                            any("bounds.end" in x or "bounds.start" in x or x.startswith("len(")
+                                for x in leaves_of(le) | leaves_of(re_)):
+                        ordered = True
+                if not ordered:
+                    point_only = (sfn, bb)
+                    continue
             if dominated or preserved:
                 continue
             names = st[2][1][3]
             verdict = ("violation", sfn, bb)
-        if verdict is None:
+        if verdict is None and point_only is not None:
+            r.add(Finding("R-UNSAFE-BOUNDS", fn.qual, "point-not-ordered", "the new bounds combine a point that is only known "
+                          "to be a character boundary of the *shared* data (`is_char_boundary`) with one of the slice's own "
+                          "bounds, and no comparison orders the point against that bound: for a sub-slice a point beyond "
+                          "its end gives inverted bounds, and as_str() runs get_unchecked on them (undefined behaviour "
+                          "through a safe API)", fn.file, line_of(point_only[0], point_only[1])))
+        elif verdict is None:
             r.sample({"fn": fn.qual, "validators": sorted({v.short for v in vals}), "verdict": "validated / preserved"})
         elif verdict[0] == "undecided":
             r.undecided.append(f"{fn.qual}: {verdict[1]}")
